@@ -249,3 +249,33 @@ def exit_conditions(ctx, P, fam, wl, wp, rule):
         ctx.check(not badr, rule, fam + ":process_packet:keep-running", "process_packet answers `stop` only when the result channel is closed (%d return sites)" % m,
                   "process_packet can tell the worker to stop for another reason (%s): one packet the analyzer rejects ends the worker thread" % (badr[:2],),
                   ctx.loc(wp, badr[0][0]) if badr else None)
+
+
+def filter_reaches_pipeline(ctx, P, crate, fam, rule):
+    """Every packet a worker handles goes through the same filtered pipeline: each call of process_packet in worker_loop is handed the
+    worker's filter (a batch's follow-up packets are not processed with `None`)."""
+    wl = [b for b in P.method("WorkerPool", "worker_loop") if b.crate == crate]
+    wp = [b for b in P.method("WorkerPool", "process_packet") if b.crate == crate]
+    if len(wl) != 1 or len(wp) != 1:
+        ctx.cannot(rule, fam + ":filter-argument", "worker_loop / process_packet not unique in %s" % crate)
+        return
+    wl, wp = wl[0], wp[0]
+    names = [wp.local_name(i + 1) for i in range(wp.arg_count)]
+    fi = [i for i, nm in enumerate(names) if nm and "filter" in nm]
+    if not fi:
+        ctx.cannot(rule, fam + ":filter-argument", "process_packet has no filter parameter", ctx.loc(wp))
+        return
+    fi = fi[0]
+    S = T.Slicer(wl, P)
+    n = 0
+    for blk, t in wl.calls():
+        if not callee_of(t).endswith("::process_packet"):
+            continue
+        n += 1
+        a = Q.call_args(wl, S, blk, t)
+        src = a[fi]
+        okf = any(x[0] == "param" and "filter" in (x[2] or "") for x in T.walk(src))
+        ctx.check(okf, rule, "%s:filter-argument@%d" % (fam, n), "process_packet(.., filter of this worker)",
+                  "a call of process_packet in the worker loop passes %s as the filter: packets handled at that call site (e.g. the follow-up packets of a batch) "
+                  "are analysed unfiltered" % T.pp(T.strip(src))[:60], ctx.loc(wl, blk))
+    ctx.floor(rule, "%s: process_packet call sites in worker_loop" % fam, n, 1)
